@@ -226,6 +226,7 @@ def build_c(unit, units, outdir, defines=()):
         for r in units[n].get('records', []):
             records[r] = r.split('::')[-1]
     types = Types(typemap, records)
+    types.string_as_vector = bool(unit.get('string_as_vector'))
     shared = {'types': types, 'selfs': {}, 'ctors': {}}
     rec_txt = []
     for r, cn in records.items():
@@ -275,6 +276,8 @@ def build_c(unit, units, outdir, defines=()):
         if any(re.search(r'\b%s_erase_at\s*\(' % re.escape(vn), rendered[n]['body'] or '') for n in allu):
             parts.append('size_t gh_e_%s;\nVEC_SHIMS_ERASE(%s, %s)' % (vn, vn, el))
             shim_ghosts.append(('size_t', 'gh_e_' + vn))
+        if any(re.search(r'\b%s_sort_(asc|desc)\s*\(' % re.escape(vn), rendered[n]['body'] or '') for n in allu):
+            parts.append('VEC_SHIMS_SORT(%s, %s)' % (vn, el))
     for sname, members in shared['selfs'].items():
         if sname == '_noself' or sname in records.values():
             continue
@@ -349,7 +352,7 @@ def instrument(unit, units, b, outdir, defines=(), tag=''):
     replace = []
     cand = list(b['used']) + unit.get('replace', [])
     for vt in b['vec_types']:
-        cand += [vt + '_grow', vt + '_ctor_n'] + ([] if unit.get('unwind') else [vt + '_erase_at'])
+        cand += [vt + '_grow', vt + '_ctor_n'] + ([] if unit.get('unwind') else [vt + '_erase_at', vt + '_sort_desc', vt + '_sort_asc'])
     body_txt = ctext[ctext.index('/* ---- function under verification'):]
     for mm in re.finditer(r'/\* inlined from the real source: .*?(?=\n/\* (?:inlined|used|----|prelude))', ctext, re.S):
         body_txt += mm.group(0)
